@@ -41,9 +41,18 @@ fn format_timestamp_iso(ts: f64) -> String {
     let second = ((time_of_day % MS_PER_MINUTE) / MS_PER_SECOND) as u32;
     let ms = (time_of_day % MS_PER_SECOND) as u32;
 
+    // Years outside 0000..=9999 use the expanded form: sign and six digits
+    let year_str = if (0..=9999).contains(&year) {
+        format!("{:04}", year)
+    } else if year < 0 {
+        format!("-{:06}", -(year as i64))
+    } else {
+        format!("+{:06}", year)
+    };
+
     format!(
-        "{:04}-{:02}-{:02}T{:02}:{:02}:{:02}.{:03}Z",
-        year, month, day, hour, minute, second, ms
+        "{}-{:02}-{:02}T{:02}:{:02}:{:02}.{:03}Z",
+        year_str, month, day, hour, minute, second, ms
     )
 }
 
@@ -218,8 +227,12 @@ fn js_value_to_json_with_visited(
                             serde_json::Value::Null
                         }
                         ExoticObject::Date { timestamp } => {
-                            // Dates serialize as their ISO string
-                            serde_json::Value::String(format_timestamp_iso(*timestamp))
+                            // Dates serialize as their ISO string; an invalid Date as null
+                            if timestamp.is_finite() {
+                                serde_json::Value::String(format_timestamp_iso(*timestamp))
+                            } else {
+                                serde_json::Value::Null
+                            }
                         }
                         // Objects without a JSON form of their own and without enumerable
                         // properties in ECMAScript serialize as `{}` (their contents are
